@@ -59,6 +59,15 @@ func (i *Inbox) Normalize(normalizers tax.Normalizers) {
 	}
 	i.Scheme = cbc.NormalizeAlphanumericalCode(i.Scheme)
 	normalizers.Each(i)
+	// a normalizer may have taken a scheme off the code: what is left of it is
+	// looked at now rather than on the next normalization
+	if code := i.Code.String(); govalidator.IsEmail(code) {
+		i.Email = code
+		i.Code = ""
+	} else if govalidator.IsURL(code) {
+		i.URL = code
+		i.Code = ""
+	}
 }
 
 // Validate ensures the inbox's fields look good.
